@@ -130,6 +130,20 @@ func (r *SeekPlanReader) Seek(offset int64, whence int) (int64, error) {
 	return abs, nil
 }
 
+// PipeReader is a PlanReader that has a Seek method which always fails, like
+// an *os.File that is a pipe or a terminal: such a source does not support
+// seeking although it satisfies io.ReadSeeker.
+type PipeReader struct {
+	PlanReader
+	Seeks int
+}
+
+// Seek implements io.Seeker and never succeeds.
+func (r *PipeReader) Seek(offset int64, whence int) (int64, error) {
+	r.Seeks++
+	return 0, errors.New("seek: illegal seek")
+}
+
 // FaultReader delivers Data[:K] and then fails with ErrInjected. With
 // WithData the error accompanies the last good bytes. Chunks as in PlanReader.
 // With OneShot the fault is reported exactly once (alone, with no bytes);
